@@ -43,7 +43,8 @@ impl Property for C04 {
         "per generated signing session (suite, n, t, identifier style, key source, signer set S, message; Taproot: the four (key parity, \
          commitment parity) combinations forced by re-seeding) the cheater set ranges over EVERY non-empty subset of S when |S| <= 5 \
          (sampled subsets above), each cheater gets a fault kind from {+1, -1, negated, zero, random, another signer's share, own share \
-         from another session, two signers' shares swapped}, plus a cancelling variant (errors summing to zero) for every subset of size \
+         from another session, two signers' shares swapped}, every single signer additionally with its share recomputed for the opposite \
+         nonce sign (z -/+ 2(d + rho e)), plus a cancelling variant (errors summing to zero) for every subset of size \
          >= 2; each (session, cheater set, variant) is run through Disabled / FirstCheater / AllCheaters aggregation and the standalone \
          share verification and compared with the reference model on scalars; per session additionally a re-randomized session \
          (frost-rerandomized aggregate / aggregate_custom) with every single cheater, everybody and sampled subsets. One evaluation per (session, cheater set, variant). \
@@ -106,6 +107,7 @@ impl Property for C04 {
             ("cheaters=all".into(), m),
             ("all-shares-valid-but-sum-invalid".into(), m),
             ("rerandomized".into(), m),
+            ("kind:nonce-sign-flipped".into(), m),
             ("tr:key-odd,R-odd".into(), 5),
             ("tr:key-odd,R-even".into(), 5),
             ("tr:key-even,R-odd".into(), 5),
@@ -267,6 +269,34 @@ fn check<C: Suite>(case: &Case, ctx: &mut Ctx) -> CheckResult {
             }
             let desc = format!("n={} t={} |S|={} cheaters(pos)={:?} kinds={:?} {}", shape.n, shape.t, m, cheat_pos, kinds, parity);
             judge::<C>(ctx, &f.sess.package, &submitted, &f.keys.pubkeys, &cheaters, delta == zero::<C>(), &msg, &desc, "C04")?;
+        }
+    }
+
+    // ---- a share computed with the opposite sign on the signer's own nonces: z -/+ 2(d + rho*e). One of the two is what a
+    // signer obtains who skips (or wrongly applies) the nonce negation of BIP-340; both are wrong shares of one cheater.
+    {
+        let evk = crate::props::c03::even_vk::<C>(f.keys.pubkeys.verifying_key());
+        if let Ok(bfl) = frost::compute_binding_factor_list(&f.sess.package, &evk, &[]) {
+            for (pos, id) in signers.iter().enumerate().take(8) {
+                let rho = bfl.get(id).and_then(|b| sc_from_bytes::<C>(&b.serialize()));
+                let d = sc_from_bytes::<C>(&f.sess.nonces[id].hiding().serialize());
+                let e = sc_from_bytes::<C>(&f.sess.nonces[id].binding().serialize());
+                let (Some(rho), Some(d), Some(e)) = (rho, d, e) else { continue };
+                let k = d + rho * e;
+                let h = share_scalar::<C>(&f.sess.shares[id]);
+                for (kind, x) in [("minus-2k", h - k - k), ("plus-2k", h + k + k)] {
+                    if x == h {
+                        continue;
+                    }
+                    let mut submitted = f.sess.shares.clone();
+                    submitted.insert(*id, share_from::<C>(x));
+                    let cheaters: BTreeSet<Id<C>> = [*id].into_iter().collect();
+                    ctx.eval(&format!("{},{},{},nonce-sign-flipped,{pos},{kind},{}", shape.n, shape.t, m, parity), true);
+                    ctx.label("kind:nonce-sign-flipped");
+                    let desc = format!("n={} t={} |S|={} cheater(pos)={pos} share {kind} (k = d + rho*e: own nonces with the opposite sign) {}", shape.n, shape.t, m, parity);
+                    judge::<C>(ctx, &f.sess.package, &submitted, &f.keys.pubkeys, &cheaters, false, &msg, &desc, "C04")?;
+                }
+            }
         }
     }
 
